@@ -190,3 +190,18 @@ def fam_arity(tier):
                     inputs=[cps(s) for s in ["xa b  c", "xabc", "x a", "a b c", "ab", "Ab", "AB", "aB", "\r\n", "é-é", "ÿ", "中中", "a中-中a", "a1-1a", "1", "É", "abcabc", "a  b", "xBa", "BBa-", "x\r\n", "\rx\r\n", "é-a", "BaB", "-aB", "éBa", "\r\r\n"]],
                     custom=custom, extra=extra, expect=exp, ctxs=[[cps(a), cps(b)] for a, b in [["", ""], ["", "\n"], ["", "b"], ["é", "é"], ["a", "a"]]]))
     return out
+
+
+def fam_arity_raw(tier):
+    """counted repetitions and e+ compiled with pest_optimizer = false: RepeatMinMax / RepeatMin<_, 1> nodes and their iterators
+    (the optimizer unrolls them otherwise); the model runs on the source AST"""
+    lines = [WSN, "rq0 = { ('a'..'c'){1,3} }", "rq1 = { ('a'..'c'){2} }", "rq2 = ${ ('a'..'c'){,2} }", "rq3 = { ('a'..'c')+ }", "rq4 = { \"x\" ~ ('a'..'c'){2,4} }",
+             "rq5 = { ('a'..'c'){2,} }"]
+    names = ["rq0", "rq1", "rq2", "rq3", "rq4", "rq5"]
+    custom = {n: "custom_" + n for n in names}
+    extra = "".join(rep_code(n, ".get_matched().1" if n == "rq4" else "") for n in names)
+    exp = {n: ("rep", 0) for n in names}
+    g = dict(id="arr0", text="\n".join(lines), alphabet=cps("ab "), maxlen=3 if tier == "quick" else 4, opts={"pest_optimizer": False},
+             inputs=[cps(s) for s in ["a b c", "a  b c", "ab c", "a bc", "a b c a", "xa b c", "x a b  c a", "xab", "a b", "abca", "a b c ", "x a"]],
+             custom=custom, extra=extra, expect=exp, entries=names, ctxs=[[cps(a), cps(b)] for a, b in [["", ""], ["", " a"], ["b", "c"]]])
+    return [g]
